@@ -559,46 +559,40 @@ func (c *Ctx) Describe(v BV) string {
 }
 
 // Subst replaces, in f, every bit of the named atoms by the corresponding bit
-// of the given vectors (simultaneous substitution, by Shannon expansion from
-// the highest substituted level down).  Used only on small control predicates.
+// of the given vectors: simultaneous substitution (vector compose), so that a
+// replacement may itself mention substituted atoms.  Used only on small
+// control predicates.
 func (c *Ctx) Subst(f bdd.Node, repl map[string]BV) bdd.Node {
-	type lv struct {
-		level int32
-		by    bdd.Node
-	}
-	var lvs []lv
-	sup := map[int32]bool{}
-	c.M.SupportOf(sup, f)
+	by := map[int32]bdd.Node{}
 	for name, v := range repl {
 		a, ok := c.byName[name]
 		if !ok {
 			continue
 		}
 		for i := 0; i < a.Width && i < len(v); i++ {
-			l := c.level(a, i)
-			if sup[l] {
-				lvs = append(lvs, lv{l, v[i]})
-			}
+			by[c.level(a, i)] = v[i]
 		}
 	}
-	if len(lvs) == 0 {
+	if len(by) == 0 {
 		return f
 	}
-	// simultaneous: first rename the substituted variables apart is not needed
-	// when the replacements do not mention substituted atoms; check that
-	rsup := map[int32]bool{}
-	for _, x := range lvs {
-		c.M.SupportOf(rsup, x.by)
-	}
-	for _, x := range lvs {
-		if rsup[x.level] {
-			panic("dom: Subst with replacements mentioning substituted atoms")
+	memo := map[bdd.Node]bdd.Node{}
+	var rec func(n bdd.Node) bdd.Node
+	rec = func(n bdd.Node) bdd.Node {
+		if n <= bdd.True {
+			return n
 		}
+		if r, ok := memo[n]; ok {
+			return r
+		}
+		l := c.M.Level(n)
+		g, ok := by[l]
+		if !ok {
+			g = c.M.Var(l, c.M.VarName(l))
+		}
+		r := c.M.Ite(g, rec(c.M.Hi(n)), rec(c.M.Lo(n)))
+		memo[n] = r
+		return r
 	}
-	for _, x := range lvs {
-		hi := c.M.Restrict(f, x.level, true)
-		lo := c.M.Restrict(f, x.level, false)
-		f = c.M.Ite(x.by, hi, lo)
-	}
-	return f
+	return rec(f)
 }
